@@ -32,6 +32,11 @@ Definition w_addr5 : bytes := [0;0;132;0;0;0;0;0;0;0;0;1;5;104;111;115;116;49;5;
 Definition w_addr3 : bytes := [0;0;132;0;0;0;0;1;0;0;0;3;5;95;104;116;116;112;4;95;116;99;112;5;108;111;99;97;108;0;0;12;0;1;0;0;17;148;0;6;3;119;101;98;192;12;192;40;0;33;128;1;0;0;0;120;0;14;0;0;0;0;31;144;5;104;111;115;116;49;192;23;192;40;0;16;128;1;0;0;17;148;0;4;3;97;61;49;192;64;0;1;128;1;0;0;0;3;0;4;192;168;1;50] .
 Definition w_ptr_bye : bytes := [0;0;132;0;0;0;0;1;0;0;0;0;5;95;104;116;116;112;4;95;116;99;112;5;108;111;99;97;108;0;0;12;0;1;0;0;0;0;0;6;3;119;101;98;192;12] .
 
+(* round 5: TXT answer + PTR (TTL 3 s) in the additional section; PTR alone TTL 120; SRV + address *)
+Definition w_txt_addl_ptr3 : bytes := [0;0;132;0;0;0;0;1;0;0;0;1;3;119;101;98;5;95;104;116;116;112;4;95;116;99;112;5;108;111;99;97;108;0;0;16;128;1;0;0;17;148;0;4;3;97;61;49;192;16;0;12;0;1;0;0;0;3;0;2;192;12] .
+Definition w_ptr120 : bytes := [0;0;132;0;0;0;0;1;0;0;0;0;5;95;104;116;116;112;4;95;116;99;112;5;108;111;99;97;108;0;0;12;0;1;0;0;0;120;0;6;3;119;101;98;192;12] .
+Definition w_srv_addr : bytes := [0;0;132;0;0;0;0;0;0;0;0;2;3;119;101;98;5;95;104;116;116;112;4;95;116;99;112;5;108;111;99;97;108;0;0;33;128;1;0;0;0;120;0;14;0;0;0;0;31;144;5;104;111;115;116;49;192;27;192;50;0;1;128;1;0;0;0;120;0;4;192;168;1;50] .
+
 Definition ex_ifs : iftab := [(2, (true, true)); (3, (true, false))].
 Definition T0 : N := 1000000.
 
@@ -254,4 +259,34 @@ Proof. repeat split; vm_compute; reflexivity. Qed.
 Lemma safe_example :
   wf_history ex_hist = true /\ safe_class ex_ifs ex_hist = true
   /\ existsb (existsb is_removed_evt) (run_history ex_ifs ex_hist) = true.
+Proof. repeat split; vm_compute; reflexivity. Qed.
+
+(* C04-browse-over-expiring-ptr: the PTR record (TTL 3 s) is cached while the type is not browsed
+   (additional section of a packet whose answer concerns a cached-for-us TXT); browse at +2500 (the
+   PTR has 500 ms left: not reported); the PTR is refreshed at +2700 (not new: no ServiceFound);
+   SRV and address at +2900: ServiceResolved without any ServiceFound on that channel *)
+Definition brexp_hist : list iter :=
+  [ mkIter T0 [mkDgram 2 true w_txt_addl_ptr3] [];
+    mkIter (T0 + 2500) [] [CBrowse n_ty 1];
+    mkIter (T0 + 2700) [mkDgram 2 true w_ptr120] [];
+    mkIter (T0 + 2900) [mkDgram 2 true w_srv_addr] [];
+    mkIter (T0 + 3400) [] [] ].
+
+Lemma browse_expiring_witness :
+  wf_history brexp_hist = true
+  /\ known_browse_expiring ex_ifs brexp_hist = true
+  /\ safe_class ex_ifs brexp_hist = true
+  /\ existsb (existsb is_found_evt) (run_history ex_ifs brexp_hist) = false
+  /\ map (fun o => existsb is_resolved_evt o) (run_history ex_ifs brexp_hist) = [false; false; false; true; false]
+  /\ existsb is_order_fail (viol_C04 ex_ifs brexp_hist (ex_wakes brexp_hist) (map obs_of (run_history ex_ifs brexp_hist))) = true.
+Proof. repeat split; vm_compute; reflexivity. Qed.
+
+(* non-vacuity of clause F over histories: ex_hist is outside the class and its trace has a
+   ServiceResolved; so have the histories of the other known classes *)
+Lemma order_example :
+  wf_history ex_hist = true /\ known_browse_expiring ex_ifs ex_hist = false
+  /\ existsb (existsb is_resolved_evt) (run_history ex_ifs ex_hist) = true
+  /\ known_browse_expiring ex_ifs lastsec_hist = false
+  /\ known_browse_expiring ex_ifs srvtgt_hist = false
+  /\ known_browse_expiring ex_ifs restart_hist = false.
 Proof. repeat split; vm_compute; reflexivity. Qed.
